@@ -1076,6 +1076,41 @@ func availableImpliesReady(r *Run, rule string) bool {
 	return all
 }
 
+// c03StuckPredicate (R3): HasPodSchedulerIssue - the test under which a node is counted as unresponsive
+// and tolerated instead of consuming the budget - is true only for a pod that is not scheduled
+// (IsPodScheduled reports false) or that is terminating (DeletionTimestamp set). A pod that is bound to
+// its node and merely not running yet is an unavailable node, not a tolerated one.
+func c03StuckPredicate(r *Run, rule string) {
+	fn := r.Prog.Func(pkgPodUtils, "HasPodSchedulerIssue")
+	if fn == nil || len(fn.Params) == 0 {
+		r.Fatal("anchor %s not found", fnHasPodSchedulerIssue)
+		return
+	}
+	pod := fn.Params[0]
+	paths, ok := truePaths(fn, 0, 5000)
+	r.paths += len(paths)
+	good := ok && len(paths) > 0
+	detail := fmt.Sprintf("%d path(s) returning true", len(paths))
+	for _, p := range paths {
+		unscheduled := p.Has(false, func(v ssa.Value, _ string) bool {
+			c, isRes := isResultOf(v, pkgPodUtils+".IsPodScheduled", 1)
+			return isRes && len(c.Call.Args) == 1 && unwrap(c.Call.Args[0]) == ssa.Value(pod)
+		})
+		terminating := p.Has(false, func(v ssa.Value, _ string) bool {
+			return isNilCompareOf(v, func(x ssa.Value) bool {
+				root, pth := accessPath(x)
+				return root == ssa.Value(pod) && len(pth) >= 1 && pth[len(pth)-1] == "DeletionTimestamp"
+			})
+		})
+		if !unscheduled && !terminating {
+			good = false
+			detail = "returns true on a path that knows neither IsPodScheduled(pod)==false nor pod.DeletionTimestamp!=nil: [" + shortFacts(p) + "]"
+		}
+	}
+	r.Check(rule, "stuck predicate", r.Prog.Pos(fn.Pos()), shortFunc(fn),
+		"HasPodSchedulerIssue is true only for an unscheduled pod or a terminating pod", good, detail)
+}
+
 func runC03(r *Run) {
 	r.RuleDoc("C03.R1", "deletion budget of the limits function is >= 0 and <= max(0, MaxUnavailablePod) on every return")
 	r.RuleDoc("C03.R2", "deletion budget is one-sidedly dominated by the documented linear formula over limits.Parameters")
@@ -1098,6 +1133,7 @@ func runC03(r *Run) {
 	}
 	site := plannerCut(r, "C03.R5", planner, "PodsToDelete")
 	availableImpliesReady(r, "C03.R6")
+	c03StuckPredicate(r, "C03.R3")
 	if site == nil {
 		// the failure is already reported under C03.R5; the dependent rules have no site to look at
 		relaxFloors(r, "C03.R1", "C03.R2", "C03.R3", "C03.R4", "C03.R5")
